@@ -51,6 +51,23 @@ Lemma wrap_cycle_props k rp e :
   wrap_cycle k rp e <> EOutOfFuel /\ is_notexist (wrap_cycle k rp e) = false.
 Proof. destruct e; cbn; intros; split; congruence. Qed.
 
+Lemma clos_rt_cases {A} (R : relation A) a c :
+  clos_refl_trans _ R a c -> a = c \/ clos_trans _ R a c.
+Proof.
+  induction 1 as [a c H|a|a b c _ IH1 _ IH2].
+  - right. apply t_step. assumption.
+  - left. reflexivity.
+  - destruct IH1 as [<-|H1]; [assumption|]. destruct IH2 as [<-|H2]; [right; assumption|].
+    right. eapply t_trans; eassumption.
+Qed.
+
+Lemma clos_rt_then_step {A} (R : relation A) a b c :
+  clos_refl_trans _ R a b -> R b c -> clos_trans _ R a c.
+Proof.
+  intros H1 H2. apply clos_rt_cases in H1. destruct H1 as [<-|H1]; [apply t_step; assumption|].
+  eapply t_trans; [eassumption|apply t_step; assumption].
+Qed.
+
 Section Graph.
   Variable g : graph.
   (* the root name is valid (only opens_valid needs it) *)
@@ -76,9 +93,34 @@ Section Graph.
   | closed_cons a v T :
       closed T -> ~ In a (keys T) -> (forall b, edge a b -> In b (keys T)) -> closed ((a, v) :: T).
 
+  (* every file of the stack is referenced by the one below it *)
+  Fixpoint chain (l : list bytes) : Prop :=
+    match l with
+    | a :: (b :: _) as r => edge b a /\ chain r
+    | _ => True
+    end.
+
+  (* the cycle reported for p is real and can be reached from every file of the stack *)
+  Definition cyc_ok (st : state) (p : bytes) : Prop :=
+    clos_trans _ edge p p /\ forall q, In q (paths st) -> clos_refl_trans _ edge q p.
+
+  Definition cyc_err (st : state) (e : err) : Prop :=
+    forall p ch, e = ECycle p ch -> cyc_ok st p.
+
+  Lemma chain_reach rest : forall top, chain (top :: rest) ->
+    forall q, In q (top :: rest) -> clos_refl_trans _ edge q top.
+  Proof.
+    induction rest as [|b r IH]; intros top Hc q [<-|Hin]; try apply rt_refl; [destruct Hin|].
+    destruct Hc as [He Hc]. eapply rt_trans; [apply IH; eassumption|apply rt_step; exact He].
+  Qed.
+
+  Ltac nocyc := let H := fresh in unfold cyc_err; intros ? ? H; discriminate H.
+
   Record Inv (st : state) : Prop := {
     inv_nodup : NoDup (paths st);
     inv_keys : forall p, In p (paths st) -> In p (keys g);
+    inv_src : forall p, In p (paths st) -> is_source p;
+    inv_chain : chain (paths st);
     inv_valid : V -> (forall p, In p (paths st) -> fs_valid p = true) /\
                      (forall n b, In (n, b) (opens st) -> fs_valid n = true);
     inv_reads : consistent -> NoDup (sreads st) /\
@@ -100,7 +142,7 @@ Section Graph.
 
   Lemma Inv_ext a b : paths a = paths b -> trees a = trees b -> opens a = opens b -> Inv a -> Inv b.
   Proof.
-    intros Hp Ht Ho [H1 H2 H3 H4 H5 H6]. unfold sreads in *.
+    intros Hp Ht Ho [H1 H2 H2a H2b H3 H4 H5 H6]. unfold sreads in *.
     constructor; unfold sreads; rewrite <- ?Hp, <- ?Ht, <- ?Ho; assumption.
   Qed.
 
@@ -129,7 +171,7 @@ Section Graph.
     match res with
     | Ok _ => Inv st' /\ targets_in top [r] (trees st')
     | Err e =>
-      e <> EOutOfFuel /\
+      e <> EOutOfFuel /\ cyc_err st e /\
       if is_notexist e
       then Inv st' /\ (forall b, rooted top (snd r) = Some b -> ~ is_source b)
       else ErrInv st'
@@ -139,14 +181,14 @@ Section Graph.
     Frame st st' /\
     match res with
     | Ok _ => Inv st' /\ targets_in top refs (trees st')
-    | Err e => e <> EOutOfFuel /\ is_notexist e = false /\ ErrInv st'
+    | Err e => e <> EOutOfFuel /\ is_notexist e = false /\ ErrInv st' /\ cyc_err st e
     end.
 
   Definition ps_post (st : state) (path : bytes) (st' : state) (res : res unit) : Prop :=
     Frame st st' /\
     match res with
     | Ok _ => forall v, Inv (add_tree st' path v)
-    | Err e => e <> EOutOfFuel /\ is_notexist e = false /\ ErrInv st'
+    | Err e => e <> EOutOfFuel /\ is_notexist e = false /\ ErrInv st' /\ cyc_err (push_path st path) e
     end.
 
   Definition refs_valid (refs : list ref) : Prop :=
@@ -171,23 +213,32 @@ Section Graph.
       parse_node_file g ps st (k, nm) = (st', r) ->
       Inv st -> paths st = top :: rest ->
       valid_template_path nm = true ->
+      (exists f0 d0 all, lookup g top = FSource f0 d0 all /\ In (k, nm) all) ->
       (length (paths st) + f >= S (length g))%nat ->
       pnf_post st top (k, nm) st' r.
     Proof.
-      intros E HI Hp Hv Hf. unfold parse_node_file in E. rewrite Hp in E.
+      intros E HI Hp Hv Href Hf. unfold parse_node_file in E. rewrite Hp in E.
       destruct (rooted top nm) as [name|] eqn:Er.
-      2:{ injection E as <- <-. split; [(split; [reflexivity|exists []; reflexivity])|]. split; [discriminate|].
+      2:{ injection E as <- <-. split; [(split; [reflexivity|exists []; reflexivity])|]. split; [discriminate|]. split; [nocyc|].
           cbn [is_notexist]. split; [assumption|]. cbn [snd]. intros b Hb. congruence. }
       rewrite <- Hp in E.
       assert (In top (paths st)) as Htop by (rewrite Hp; left; reflexivity).
       destruct (mem_bytes name (paths st)) eqn:Em.
       { injection E as <- <-. split; [(split; [reflexivity|exists []; reflexivity])|]. split; [discriminate|].
-        cbn [is_notexist]. apply Inv_ErrInv. assumption. }
+        split; [|cbn [is_notexist]; apply Inv_ErrInv; assumption].
+        intros p ch Hcy. injection Hcy as <- _. apply mem_bytes_In in Em.
+        assert (edge top name) as Hedge.
+        { destruct Href as (f0 & d0 & all & Hl & Hin). split; [exists f0, d0, all, k, nm; auto|].
+          apply (inv_src st HI). assumption. }
+        pose proof (inv_chain st HI) as Hch. rewrite Hp in Hch, Em.
+        split.
+        - eapply clos_rt_then_step; [eapply chain_reach; eassumption|exact Hedge].
+        - intros q Hq. rewrite Hp in Hq. eapply rt_trans; [eapply chain_reach; eassumption|apply rt_step; exact Hedge]. }
       assert (~ In name (paths st)) as Hnp.
       { intros H. apply mem_bytes_In in H. congruence. }
       destruct (assoc_bytes (trees st) name) as [[pk tfmt]|] eqn:Ea.
       { destruct (conflict pk k).
-        - injection E as <- <-. split; [(split; [reflexivity|exists []; reflexivity])|]. split; [discriminate|].
+        - injection E as <- <-. split; [(split; [reflexivity|exists []; reflexivity])|]. split; [discriminate|]. split; [nocyc|].
           cbn [is_notexist]. apply Inv_ErrInv. assumption.
         - injection E as <- <-. split; [(split; [reflexivity|exists []; reflexivity])|]. split; [assumption|].
           intros k' nm' b [H|[]] Hb _. injection H as <- <-.
@@ -208,39 +259,44 @@ Section Graph.
       { split; [apply Hlogv|]. intros c. rewrite sreads_log_true. constructor; [auto|].
         apply (inv_reads st HI c). }
       assert (Inv (log_open st name false)) as Hinv_f.
-      { destruct HI as [H1 H2 H3 H4 H5 H6]. constructor; try assumption.
+      { destruct HI as [H1 H2 H2a H2b H3 H4 H5 H6]. constructor; try assumption.
         intros v. split; [apply (H3 v)|apply Hlogv; assumption]. }
       unfold read_file in E.
       destruct (lookup g name) as [ne|ne| |fmt d refs] eqn:El.
       - (* Open fails *)
         injection E as <- <-. split; [(split; [reflexivity|exists []; reflexivity])|].
-        destruct ne; (split; [discriminate|]); cbn [is_notexist].
+        destruct ne; (split; [discriminate|]); (split; [nocyc|]); cbn [is_notexist].
         + split; [assumption|]. cbn [snd]. intros b Hb (f0 & d0 & r0 & Hs).
           rewrite Er in Hb. injection Hb as <-. congruence.
         + apply Inv_ErrInv. assumption.
       - (* Open succeeds, reading fails *)
         injection E as <- <-. split; [(split; [reflexivity|exists []; reflexivity])|].
-        destruct ne; (split; [discriminate|]); cbn [is_notexist]; [|assumption].
+        destruct ne; (split; [discriminate|]); (split; [nocyc|]); cbn [is_notexist]; [|assumption].
         split.
-        + destruct HI as [H1 H2 H3 H4 H5 H6]. constructor; try assumption.
+        + destruct HI as [H1 H2 H2a H2b H3 H4 H5 H6]. constructor; try assumption.
           * intros v. split; [apply (H3 v)|apply Hlogv; assumption].
           * intros c. exfalso. apply (c name). assumption.
         + cbn [snd]. intros b Hb (f0 & d0 & r0 & Hs).
           rewrite Er in Hb. injection Hb as <-. congruence.
       - (* the source does not parse *)
         cbn [parse_content] in E. injection E as <- <-. split; [(split; [reflexivity|exists []; reflexivity])|].
-        split; [discriminate|]. cbn [is_notexist]. assumption.
+        split; [discriminate|]. split; [nocyc|]. cbn [is_notexist]. assumption.
       - (* a source *)
         cbn [parse_content] in E.
         destruct (is_import k && negb d).
-        { injection E as <- <-. split; [(split; [reflexivity|exists []; reflexivity])|]. split; [discriminate|]. cbn [is_notexist]. assumption. }
+        { injection E as <- <-. split; [(split; [reflexivity|exists []; reflexivity])|]. split; [discriminate|]. split; [nocyc|]. cbn [is_notexist]. assumption. }
         destruct (forallb (fun r0 : ref => valid_template_path (snd r0)) refs) eqn:Erv.
-        2:{ injection E as <- <-. split; [(split; [reflexivity|exists []; reflexivity])|]. split; [discriminate|]. cbn [is_notexist]. assumption. }
+        2:{ injection E as <- <-. split; [(split; [reflexivity|exists []; reflexivity])|]. split; [discriminate|]. split; [nocyc|]. cbn [is_notexist]. assumption. }
         destruct (ps (log_open st name true) name fmt refs) as [st2 r2] eqn:Eps.
         assert (Inv (push_path (log_open st name true) name)) as Hpush.
-        { destruct HI as [H1 H2 H3 H4 H5 H6]. constructor; cbn [push_path log_open paths trees opens].
+        { assert (edge top name) as Hedge.
+          { destruct Href as (f0 & d0 & all & Hl & Hin). split; [exists f0, d0, all, k, nm; auto|].
+            exists fmt, d, refs. assumption. }
+          destruct HI as [H1 H2 H2a H2b H3 H4 H5 H6]. constructor; cbn [push_path log_open paths trees opens].
           - constructor; assumption.
           - intros p [<-|Hin]; [|auto]. apply lookup_In. congruence.
+          - intros p [<-|Hin]; [exists fmt, d, refs; assumption|auto].
+          - rewrite Hp in *. cbn [chain]. split; assumption.
           - intros v. split.
             + intros p [<-|Hin]; [auto|]. apply (H3 v). assumption.
             + apply Hlogv. assumption.
@@ -260,8 +316,10 @@ Section Graph.
           * split; [apply Hpost|].
             intros k' nm' b [H|[]] Hb _. injection H as <- <-.
             rewrite Er in Hb. injection Hb as <-. left. reflexivity.
-        + injection E as <- <-. split; [assumption|]. destruct Hpost as (H1 & H2 & H3).
-          split; [assumption|]. rewrite H2. assumption.
+        + injection E as <- <-. split; [assumption|]. destruct Hpost as (H1 & H2 & H3 & H4).
+          split; [assumption|]. split; [|rewrite H2; assumption].
+          intros p ch Hcy. destruct (H4 p ch Hcy) as [Hc1 Hc2]. split; [assumption|].
+          intros q Hqin. apply Hc2. right. exact Hqin.
     Qed.
 
     Lemma targets_in_cons top r refs T :
@@ -274,16 +332,31 @@ Section Graph.
       Frame a b -> targets_in top refs (trees a) -> targets_in top refs (trees b).
     Proof. intros Hf H k nm x Hin Hr Hs. eapply Frame_keys; [eassumption|]. eapply H; eassumption. Qed.
 
+    Lemma cyc_err_paths a b e : paths a = paths b -> cyc_err a e -> cyc_err b e.
+    Proof. intros Hp H p ch He. destruct (H p ch He) as [H1 H2]. split; [assumption|]. rewrite <- Hp. assumption. Qed.
+
+    Lemma cyc_err_wrap st k rp e : cyc_err st e -> cyc_err st (wrap_cycle k rp e).
+    Proof. intros H p ch He. destruct e; cbn [wrap_cycle] in He; try discriminate. injection He as <- _. eapply H. reflexivity. Qed.
+
+    Lemma cyc_err_other st e : (forall p ch, e <> ECycle p ch) -> cyc_err st e.
+    Proof. intros H p ch He. exfalso. eapply H. eassumption. Qed.
+
     Lemma en_spec fmt refs : forall st top rest st' r,
       expand_nodes g ps st fmt refs = (st', r) ->
       Inv st -> paths st = top :: rest ->
       refs_valid refs ->
+      (exists f0 d0 all, lookup g top = FSource f0 d0 all /\ incl refs all) ->
       (length (paths st) + f >= S (length g))%nat ->
       en_post st top refs st' r.
     Proof.
-      induction refs as [|[k nm] more IH]; intros st top rest st' r E HI Hp Hv Hf.
+      induction refs as [|[k nm] more IH]; intros st top rest st' r E HI Hp Hv Hall Hf.
       { cbn [expand_nodes] in E. injection E as <- <-. split; [apply Frame_refl|].
         split; [assumption|]. intros k nm b []. }
+      assert (exists f0 d0 all, lookup g top = FSource f0 d0 all /\ In (k, nm) all) as Href.
+      { destruct Hall as (f0 & d0 & all & H1 & H2). exists f0, d0, all. split; [assumption|apply H2; left; reflexivity]. }
+      assert (exists f0 d0 all, lookup g top = FSource f0 d0 all /\ incl more all) as Hall'.
+      { destruct Hall as (f0 & d0 & all & H1 & H2). exists f0, d0, all. split; [assumption|].
+        intros x Hx. apply H2. right. assumption. }
       unfold refs_valid in Hv. cbn [forallb snd] in Hv. apply andb_prop in Hv. destruct Hv as [Hv1 Hv2].
       (* the continuation of the loop from a state st1 *)
       assert (forall st1 st0, Frame st st0 -> Inv st1 ->
@@ -296,16 +369,18 @@ Section Graph.
         destruct Hfr1 as [Hq Hn].
         assert (paths st1 = top :: rest) as Hp1' by congruence.
         assert (length (paths st1) + f >= S (length g))%nat as Hf1 by (rewrite Hq; assumption).
-        specialize (IH _ _ _ _ _ E1 HI1 Hp1' Hv2 Hf1). destruct IH as [Hfr2 Hpost].
+        specialize (IH _ _ _ _ _ E1 HI1 Hp1' Hv2 Hall' Hf1). destruct IH as [Hfr2 Hpost].
         split; [eapply Frame_trans; [split; eassumption|eassumption]|].
-        destruct r as [u|e]; [|assumption].
+        destruct r as [u|e].
+        2:{ destruct Hpost as (A1 & A2 & A3 & A4). repeat (split; [assumption|]).
+            eapply cyc_err_paths; [exact Hq|exact A4]. }
         destruct Hpost as [HI' Htg']. split; [assumption|].
         apply targets_in_cons; [|assumption]. eapply targets_in_mono; eassumption. }
       assert (forall x, Inv (no_extend x) <-> Inv x) as Hne.
       { intros x. split; apply Inv_ext; reflexivity. }
-      assert (forall x, ErrInv x -> forall e, e <> EOutOfFuel -> is_notexist e = false -> forall st0, Frame st st0 ->
+      assert (forall x, ErrInv x -> forall e, e <> EOutOfFuel -> is_notexist e = false -> cyc_err st e -> forall st0, Frame st st0 ->
                 paths x = paths st0 -> trees x = trees st0 -> en_post st top ((k, nm) :: more) x (Err e)) as Hfail.
-      { intros x Hx e He1 He2 st0 Hfr Hpx Htx. split; [|auto].
+      { intros x Hx e He1 He2 Hcy st0 Hfr Hpx Htx. split; [|auto].
         destruct Hfr as [Ha [new Hb]]. split; [congruence|exists new; congruence]. }
       cbn [expand_nodes] in E.
       destruct k.
@@ -313,55 +388,55 @@ Section Graph.
         destruct (can_extend st); cbn [negb] in E.
         2:{ injection E as <- <-. eapply Hfail; try reflexivity; try discriminate; [apply Inv_ErrInv; assumption|apply Frame_refl]. }
         destruct (parse_node_file g ps st (KExtends, nm)) as [st1 r1] eqn:Epnf.
-        pose proof (pnf_spec _ _ _ _ _ _ _ Epnf HI Hp Hv1 Hf) as [Hfr Hpost].
+        pose proof (pnf_spec _ _ _ _ _ _ _ Epnf HI Hp Hv1 Href Hf) as [Hfr Hpost].
         destruct r1 as [tfmt|e].
         + destruct Hpost as [HI1 Htg]. destruct (format_ok fmt tfmt).
           * eapply Hcont; try eassumption; reflexivity.
           * injection E as <- <-. eapply Hfail; try reflexivity; try discriminate; [apply Inv_ErrInv; assumption|assumption].
-        + injection E as <- <-. destruct Hpost as [He Hpost].
+        + injection E as <- <-. destruct Hpost as (He & Hcy & Hpost).
           destruct (is_notexist e) eqn:Ene.
           * eapply Hfail; try reflexivity; try discriminate; [apply Inv_ErrInv; apply Hpost|assumption].
           * destruct (wrap_cycle_props KExtends (rooted_path st1 nm) e He Ene).
-            eapply Hfail; try reflexivity; assumption.
+            eapply Hfail; try reflexivity; try assumption. apply cyc_err_wrap. exact Hcy.
       - (* import *)
         destruct (parse_node_file g ps (no_extend st) (KImport, nm)) as [st1 r1] eqn:Epnf.
         assert (Inv (no_extend st)) as HI0 by (apply Hne; assumption).
-        pose proof (pnf_spec (no_extend st) top rest _ _ _ _ Epnf HI0 Hp Hv1 Hf) as [Hfr Hpost].
+        pose proof (pnf_spec (no_extend st) top rest _ _ _ _ Epnf HI0 Hp Hv1 Href Hf) as [Hfr Hpost].
         assert (Frame st st1) as Hfr' by exact Hfr.
         destruct r1 as [tfmt|e].
         + destruct Hpost as [HI1 Htg]. eapply Hcont; try eassumption; reflexivity.
-        + destruct Hpost as [He Hpost]. destruct (is_notexist e) eqn:Ene.
+        + destruct Hpost as (He & Hcy & Hpost). destruct (is_notexist e) eqn:Ene.
           * destruct Hpost as [HI1 Hns].
             eapply (Hcont (add_unresolved st1 nm) st1); try eassumption; try reflexivity.
             -- revert HI1. apply Inv_ext; reflexivity.
             -- intros k' nm' b [H|[]] Hb Hs. injection H as <- <-. exfalso. eapply Hns; eassumption.
           * injection E as <- <-. destruct (wrap_cycle_props KImport (rooted_path st1 nm) e He Ene).
-            eapply Hfail; try reflexivity; assumption.
+            eapply Hfail; try reflexivity; try assumption. apply cyc_err_wrap. exact Hcy.
       - (* render *)
         destruct (parse_node_file g ps (no_extend st) (KRender, nm)) as [st1 r1] eqn:Epnf.
         assert (Inv (no_extend st)) as HI0 by (apply Hne; assumption).
-        pose proof (pnf_spec (no_extend st) top rest _ _ _ _ Epnf HI0 Hp Hv1 Hf) as [Hfr Hpost].
+        pose proof (pnf_spec (no_extend st) top rest _ _ _ _ Epnf HI0 Hp Hv1 Href Hf) as [Hfr Hpost].
         assert (Frame st st1) as Hfr' by exact Hfr.
         destruct r1 as [tfmt|e].
         + destruct Hpost as [HI1 Htg]. eapply Hcont; try eassumption; reflexivity.
-        + cbn [andb] in E. injection E as <- <-. destruct Hpost as [He Hpost].
+        + cbn [andb] in E. injection E as <- <-. destruct Hpost as (He & Hcy & Hpost).
           destruct (is_notexist e) eqn:Ene.
           * eapply Hfail; try reflexivity; try discriminate; [apply Inv_ErrInv; apply Hpost|assumption].
           * destruct (wrap_cycle_props KRender (rooted_path st1 nm) e He Ene).
-            eapply Hfail; try reflexivity; assumption.
+            eapply Hfail; try reflexivity; try assumption. apply cyc_err_wrap. exact Hcy.
       - (* render with default *)
         destruct (parse_node_file g ps (no_extend st) (KDefault, nm)) as [st1 r1] eqn:Epnf.
         assert (Inv (no_extend st)) as HI0 by (apply Hne; assumption).
-        pose proof (pnf_spec (no_extend st) top rest _ _ _ _ Epnf HI0 Hp Hv1 Hf) as [Hfr Hpost].
+        pose proof (pnf_spec (no_extend st) top rest _ _ _ _ Epnf HI0 Hp Hv1 Href Hf) as [Hfr Hpost].
         assert (Frame st st1) as Hfr' by exact Hfr.
         destruct r1 as [tfmt|e].
         + destruct Hpost as [HI1 Htg]. eapply Hcont; try eassumption; reflexivity.
-        + destruct Hpost as [He Hpost]. cbn [andb] in E. destruct (is_notexist e) eqn:Ene.
+        + destruct Hpost as (He & Hcy & Hpost). cbn [andb] in E. destruct (is_notexist e) eqn:Ene.
           * destruct Hpost as [HI1 Hns].
             eapply (Hcont st1 st1); try eassumption; try reflexivity.
             intros k' nm' b [H|[]] Hb Hs. injection H as <- <-. exfalso. eapply Hns; eassumption.
           * injection E as <- <-. destruct (wrap_cycle_props KRender (rooted_path st1 nm) e He Ene).
-            eapply Hfail; try reflexivity; assumption.
+            eapply Hfail; try reflexivity; try assumption. apply cyc_err_wrap. exact Hcy.
     Qed.
   End Level.
 
@@ -381,17 +456,19 @@ Section Graph.
       assert (length (paths (push_path st path)) + f >= S (length g))%nat as Hf2
         by (cbn [push_path paths length]; lia).
       pose proof (en_spec f (parse_source f g) IH fmt refs (push_path st path) path (paths st) st2 r2
-                          Een Hpush eq_refl Hrv Hf2) as [Hfr Hpost].
+                          Een Hpush eq_refl Hrv (ex_intro _ fmt (ex_intro _ d (ex_intro _ refs (conj Hl (incl_refl refs))))) Hf2) as [Hfr Hpost].
       destruct Hfr as [Hq [new Hn]]. cbn [push_path paths trees] in Hq, Hn.
       split.
       { split; [cbn [pop_path paths]; rewrite Hq; reflexivity|exists new; exact Hn]. }
       destruct r2 as [u|e].
-      + destruct Hpost as [[H1 H2 H3 H4 H5 H6] Htg]. intros v.
+      + destruct Hpost as [[H1 H2 H2a H2b H3 H4 H5 H6] Htg]. intros v.
         rewrite Hq in *. inversion H1 as [|? ? Hnin Hnd]; subst.
         constructor; change (sreads (add_tree (pop_path st2) path v)) with (sreads st2);
           cbn [add_tree pop_path paths trees opens]; rewrite ?Hq; cbn [tl keys map fst].
         * assumption.
         * intros p Hin. apply H2. right. assumption.
+        * intros p Hin. apply H2a. right. assumption.
+        * destruct (paths st) as [|b r]; [exact I|]. apply H2b.
         * intros vv. destruct (H3 vv) as [Ha Hb]. split; [intros p Hin; apply Ha; right; assumption|exact Hb].
         * intros c. destruct (H4 c) as [Ha Hb]. split; [exact Ha|].
           intros n Hin. destruct (Hb n Hin) as [[<-|Hp]|Ht]; [right; left; reflexivity|left; assumption|right; right; assumption].
@@ -399,7 +476,7 @@ Section Graph.
         * constructor; [assumption|apply H5; left; reflexivity|].
           intros b [(f0 & d0 & refs0 & k & nm & Hl0 & Hin & Hr) Hs].
           rewrite Hl in Hl0. injection Hl0 as <- <- <-. eapply Htg; eassumption.
-      + destruct Hpost as (H1 & H2 & H3). repeat split; try assumption; apply H3.
+      + destruct Hpost as (H1 & H2 & H3 & H4). split; [assumption|]. split; [assumption|]. split; [exact H3|exact H4].
   Qed.
 
   (* ---------- no cycle inside a closed set ---------- *)
@@ -429,16 +506,6 @@ End Graph.
 
 (* ---------- ParseTemplate ---------- *)
 
-Lemma clos_rt_cases {A} (R : relation A) a c :
-  clos_refl_trans _ R a c -> a = c \/ clos_trans _ R a c.
-Proof.
-  induction 1 as [a c H|a|a b c _ IH1 _ IH2].
-  - right. apply t_step. assumption.
-  - left. reflexivity.
-  - destruct IH1 as [<-|H1]; [assumption|]. destruct IH2 as [<-|H2]; [right; assumption|].
-    right. eapply t_trans; eassumption.
-Qed.
-
 Lemma reads_rev st : map fst (filter (fun nb : bytes * bool => snd nb) (rev (opens st))) = rev (sreads st).
 Proof.
   unfold sreads. induction (opens st) as [|[n b] l IH]; [reflexivity|].
@@ -455,7 +522,8 @@ Lemma parse_template_post g root :
   out_result o <> Err EOutOfFuel /\
   (fs_valid root = true -> forall n b, In (n, b) (out_opens o) -> fs_valid n = true) /\
   (consistent g -> NoDup (reads o)) /\
-  (forall u, out_result o = Ok u -> ~ has_cycle_from g root).
+  (forall u, out_result o = Ok u -> ~ has_cycle_from g root) /\
+  (forall p ch, out_result o = Err (ECycle p ch) -> has_cycle_from g root).
 Proof.
   set (V := fs_valid root = true).
   unfold parse_template, parse_template_fuel.
@@ -482,6 +550,8 @@ Proof.
     { constructor; cbn.
       - constructor; [intros []|constructor].
       - intros p [<-|[]]. apply lookup_In. congruence.
+      - intros p [<-|[]]. exists fmt, d, refs. assumption.
+      - exact I.
       - intros v. split; [intros p [<-|[]]; exact v|]. intros n b [H|[]]. injection H as <- _. exact v.
       - intros _. split; [constructor; [intros []|constructor]|]. intros n [<-|[]]. left. left. reflexivity.
       - intros p _ [].
@@ -490,7 +560,7 @@ Proof.
     pose proof (ps_spec g V (S (length g)) _ _ _ _ _ _ _ Eps Hpush El Erv Hf) as [_ Hpost].
     destruct r as [u|e].
     + cbn [out_result out_opens]. pose proof (Hpost (KRender, 0)) as HI.
-      split; [discriminate|]. split; [|split].
+      split; [discriminate|]. split; [|split; [|split; [|discriminate]]].
       * intros v n b Hin. apply in_rev in Hin. apply (inv_valid _ _ _ HI v) in Hin. assumption.
       * intros c. unfold reads. cbn [out_opens]. rewrite reads_rev.
         apply NoDup_rev. apply (inv_reads _ _ _ HI c).
@@ -500,11 +570,13 @@ Proof.
         { apply clos_rt_cases in Hrc. destruct Hrc as [<-|Hrc]; [left; reflexivity|].
           eapply closed_stay; [exact Hcl|left; reflexivity|exact Hrc]. }
         eapply closed_no_cycle; eassumption.
-    + cbn [out_result out_opens]. destruct Hpost as (He & _ & Hv & Hr).
-      split; [congruence|]. split; [|split].
+    + cbn [out_result out_opens]. destruct Hpost as (He & _ & (Hv & Hr) & Hcy).
+      split; [congruence|]. split; [|split; [|split]].
       * intros v n b Hin. apply in_rev in Hin. eapply Hv; eassumption.
       * intros c. unfold reads. cbn [out_opens]. rewrite reads_rev. apply NoDup_rev. auto.
       * discriminate.
+      * intros p ch H. injection H as ->. destruct (Hcy p ch eq_refl) as [Hc1 Hc2].
+        exists p. split; [apply Hc2; left; reflexivity|assumption].
 Qed.
 
 Theorem expand_terminates g root : out_result (parse_template g root) <> Err EOutOfFuel.
@@ -520,10 +592,15 @@ Proof.
   destruct (parse_template_post g root) as (_ & H & _). eapply H; eassumption.
 Qed.
 
+(* a cycle error is never reported without a cycle that can be reached from the root *)
+Theorem cycle_error_sound g root p ch :
+  out_result (parse_template g root) = Err (ECycle p ch) -> has_cycle_from g root.
+Proof. apply parse_template_post. Qed.
+
 Theorem cycle_is_error g root : has_cycle_from g root ->
   exists e, out_result (parse_template g root) = Err e /\ e <> EOutOfFuel.
 Proof.
-  intros Hc. destruct (parse_template_post g root) as (H1 & _ & _ & H4).
+  intros Hc. destruct (parse_template_post g root) as (H1 & _ & _ & H4 & _).
   destruct (out_result (parse_template g root)) as [u|e] eqn:E.
   - exfalso. eapply H4; [reflexivity|assumption].
   - exists e. split; [reflexivity|congruence].
@@ -553,11 +630,12 @@ Definition C18_full : Prop :=
   /\ (forall g root, consistent g -> NoDup (reads (parse_template g root)))
   /\ (forall g root, has_cycle_from g root ->
         exists e, out_result (parse_template g root) = Err e /\ e <> EOutOfFuel)
+  /\ (forall g root p ch, out_result (parse_template g root) = Err (ECycle p ch) -> has_cycle_from g root)
   /\ (forall g root, fs_valid root = true ->
         Forall (fun nb : bytes * bool => fs_valid (fst nb) = true) (out_opens (parse_template g root))).
 
 Lemma C18_all : C18_full.
 Proof.
   split; [exact rooted_valid|]. split; [exact expand_terminates|]. split; [exact reads_nodup|].
-  split; [exact cycle_is_error|exact opens_valid].
+  split; [exact cycle_is_error|]. split; [exact cycle_error_sound|exact opens_valid].
 Qed.
